@@ -376,13 +376,8 @@ func ruleWG(c *Ctx) {
 		c.R.Undecided("R-WG", "", "instance-floor", fmt.Sprintf("only %d WaitGroup.Add sites found, 6 were confirmed by hand", nAdd))
 	}
 	// Kill waits for the management goroutines
-	p.killDefer(c, "R-WG", "Kill waits for clientWaitGroup", func(lit *Func) bool {
-		for _, call := range lit.Calls() {
-			if p.CalleeName(lit, call) == "sync.WaitGroup.Wait" && p.wgDesc(lit, call) == "Client.clientWaitGroup" {
-				return true
-			}
-		}
-		return false
+	p.killDefer(c, "R-WG", "Kill waits for clientWaitGroup", func(lit *Func, call *ast.CallExpr) bool {
+		return p.CalleeName(lit, call) == "sync.WaitGroup.Wait" && p.wgDesc(lit, call) == "Client.clientWaitGroup"
 	}, "Kill returns without waiting for the goroutine that reaps the process")
 	// the reaper goroutine waits for the pipe readers before runner.Wait
 	start := p.Fn("Client.Start")
@@ -526,7 +521,15 @@ func ruleWG(c *Ctx) {
 
 // killDefer checks that Client.Kill registers, before any non-early exit, a
 // deferred closure for which has() holds.
-func (p *Prog) killDefer(c *Ctx, rule, construct string, has func(*Func) bool, why string) {
+func (p *Prog) killDefer(c *Ctx, rule, construct string, action func(*Func, *ast.CallExpr) bool, why string) {
+	has := func(lit *Func) bool {
+		for _, call := range lit.Calls() {
+			if action(lit, call) {
+				return true
+			}
+		}
+		return false
+	}
 	f := p.Fn("Client.Kill")
 	if f == nil {
 		c.R.Undecided(rule, "Client.Kill", construct, "function not found")
@@ -545,6 +548,51 @@ func (p *Prog) killDefer(c *Ctx, rule, construct string, has func(*Func) bool, w
 	if dn == nil {
 		c.R.Violate(rule, p.Pos(f.Node()), f.Name, construct, "no deferred closure in Kill does this: "+why, nil)
 		return
+	}
+	// inside the closure the action is unconditional: every path through the
+	// closure passes it (apart from the test of its own argument against "",
+	// "no directory was created")
+	if ds, ok := dn.Ast.(*ast.DeferStmt); ok {
+		if fl, ok := ast.Unparen(ds.Call.Fun).(*ast.FuncLit); ok && action != nil {
+			lf := p.Lit(fl)
+			lg := p.Graph(lf)
+			linfo := lf.Pkg.TypesInfo
+			argObjs := map[types.Object]bool{}
+			isActionNode := func(m *Node) bool {
+				if m.Ast == nil {
+					return false
+				}
+				for _, call := range callsIn(m.Ast) {
+					if action(lf, call) {
+						return true
+					}
+				}
+				return false
+			}
+			for _, call := range lf.Calls() {
+				if action(lf, call) {
+					for _, a := range call.Args {
+						if o := identObj(linfo, a); o != nil {
+							argObjs[o] = true
+						}
+					}
+				}
+			}
+			bypassOK := func(e *Edge) bool {
+				at, ok := edgeAtom(linfo, e)
+				if !ok || at.Kind != "cmp" || at.Op != token.EQL {
+					return false
+				}
+				sv, isS := constString(linfo, at.Y)
+				return isS && sv == "" && argObjs[identObj(linfo, at.X)]
+			}
+			seenL := lg.Reach([]*Node{lg.Entry}, isActionNode, bypassOK)
+			if _, skip := seenL[lg.Exit]; skip {
+				c.R.Violate(rule, p.Pos(dn.Ast), f.Name, construct+" (on every path of the cleanup)", "the deferred cleanup can return before it gets there (an early return or a condition in front of it): "+why, p.PathTo(seenL, lg.Exit))
+			} else {
+				c.R.Hold(rule, p.Pos(dn.Ast), f.Name, construct+" (on every path of the cleanup)", "every path through the deferred closure passes it", true)
+			}
+		}
 	}
 	// the only exits that may bypass the defer are the "nothing to kill" early return edges
 	cut := func(e *Edge) bool { return p.isNoRunnerEdge(info, e) }
@@ -636,15 +684,9 @@ func ruleSocketDir(c *Ctx) {
 	} else {
 		c.R.Hold("R-RES/socketdir", p.Pos(kill.Node()), kill.Name, "socket dir local bound once", "single assignment from UnixSocketConfig.socketDir", true)
 	}
-	p.killDefer(c, "R-RES/socketdir", "Kill removes the socket directory", func(lit *Func) bool {
-		info := lit.Pkg.TypesInfo
-		for _, call := range lit.Calls() {
-			if p.CalleeName(lit, call) == "os.RemoveAll" && len(call.Args) == 1 && identObj(info, call.Args[0]) == dirVar {
-				// must be guarded only by dir != ""
-				return true
-			}
-		}
-		return false
+	p.killDefer(c, "R-RES/socketdir", "Kill removes the socket directory", func(lit *Func, call *ast.CallExpr) bool {
+		// must be guarded only by dir != "" (checked by killDefer)
+		return p.CalleeName(lit, call) == "os.RemoveAll" && len(call.Args) == 1 && identObj(lit.Pkg.TypesInfo, call.Args[0]) == dirVar
 	}, "the temporary socket directory created for a custom runner is left behind")
 	// Start stores the created directory in the field Kill reads
 	start := p.Fn("Client.Start")
@@ -879,9 +921,75 @@ func ruleKill(c *Ctx) {
 		}
 		return false
 	}
+	// Client.doneCtx.Err() != nil: the exit context was observed done
+	isDoneErr := func(e ast.Expr) bool {
+		be, ok := ast.Unparen(e).(*ast.BinaryExpr)
+		if !ok || be.Op != token.NEQ || !isNilIdent(info, be.Y) {
+			return false
+		}
+		call, ok := ast.Unparen(be.X).(*ast.CallExpr)
+		if !ok || !strings.HasSuffix(p.CalleeName(f, call), "Context.Err") {
+			return false
+		}
+		se, ok := ast.Unparen(call.Fun).(*ast.SelectorExpr)
+		return ok && SelField(info, se.X) == doneF
+	}
+	// a flag that is only ever assigned false or that observation
+	exitedFlag := func(v *types.Var) bool {
+		n, ok := 0, true
+		ast.Inspect(f.Body, func(x ast.Node) bool {
+			switch y := x.(type) {
+			case *ast.AssignStmt:
+				for i, l := range y.Lhs {
+					if identObj(info, l) != types.Object(v) {
+						continue
+					}
+					if len(y.Lhs) != len(y.Rhs) {
+						ok = false
+						continue
+					}
+					r := ast.Unparen(y.Rhs[i])
+					if id, isID := r.(*ast.Ident); isID && id.Name == "false" {
+						continue
+					}
+					if isDoneErr(r) {
+						n++
+						continue
+					}
+					ok = false
+				}
+			case *ast.ValueSpec:
+				for i, nm := range y.Names {
+					if info.Defs[nm] == types.Object(v) && i < len(y.Values) {
+						if isDoneErr(y.Values[i]) {
+							n++
+						} else if id, isID := ast.Unparen(y.Values[i]).(*ast.Ident); !isID || id.Name != "false" {
+							ok = false
+						}
+					}
+				}
+			}
+			return true
+		})
+		return ok && n > 0
+	}
 	cut := func(e *Edge) bool {
 		if p.isNoRunnerEdge(info, e) {
 			return true
+		}
+		if at, isAt := edgeAtom(info, e); isAt {
+			if at.Kind == "nil" && at.Op == token.NEQ {
+				if call, ok := ast.Unparen(at.X).(*ast.CallExpr); ok && strings.HasSuffix(p.CalleeName(f, call), "Context.Err") {
+					if se, ok := ast.Unparen(call.Fun).(*ast.SelectorExpr); ok && SelField(info, se.X) == doneF {
+						return true
+					}
+				}
+			}
+			if at.Kind == "bool" && at.True {
+				if v, ok := identObj(info, at.X).(*types.Var); ok && !v.IsField() && exitedFlag(v) {
+					return true
+				}
+			}
 		}
 		// the select arm that observed the exit context
 		if e.Comm != nil && e.Comm.Comm != nil {
@@ -1186,10 +1294,63 @@ func (p *Prog) replyCloseViolation(f *Func, v *types.Var, closeNode *Node) (bool
 			return true
 		}
 		if p.moduleSendsOnField(fld) {
-			if n := g.NodeOf(kv); n != nil {
-				handoffs = append(handoffs, n)
-				where = "stored in " + p.FieldName(fld) + " of a message"
+			where = "stored in " + p.FieldName(fld) + " of a message"
+			// a message first bound to a local is handed over where that local
+			// escapes (sent, passed on, stored), not where it is built
+			var msgV *types.Var
+			var cl ast.Node = p.Parent(kv)
+			if u, ok := p.Parent(cl).(*ast.UnaryExpr); ok && u.Op == token.AND {
+				cl = u
 			}
+			if as, ok := p.Parent(cl).(*ast.AssignStmt); ok && len(as.Lhs) == len(as.Rhs) {
+				for i, r := range as.Rhs {
+					if ast.Node(r) == cl {
+						if mv, ok := identObj(info, as.Lhs[i]).(*types.Var); ok && !mv.IsField() && p.singleDef(f, mv) != nil {
+							msgV = mv
+						}
+					}
+				}
+			}
+			if msgV == nil {
+				if n := g.NodeOf(kv); n != nil {
+					handoffs = append(handoffs, n)
+				}
+				return true
+			}
+			ast.Inspect(f.Body, func(y ast.Node) bool {
+				esc := false
+				switch z := y.(type) {
+				case *ast.SendStmt:
+					esc = identObj(info, z.Value) == types.Object(msgV)
+				case *ast.CallExpr:
+					for _, a := range z.Args {
+						if identObj(info, a) == types.Object(msgV) {
+							esc = true
+						}
+					}
+				case *ast.AssignStmt:
+					for i, r := range z.Rhs {
+						if identObj(info, r) == types.Object(msgV) && i < len(z.Lhs) {
+							if _, isID := ast.Unparen(z.Lhs[i]).(*ast.Ident); !isID {
+								esc = true
+							}
+						}
+					}
+				case *ast.ReturnStmt:
+					for _, r := range z.Results {
+						if identObj(info, r) == types.Object(msgV) {
+							esc = true
+						}
+					}
+				}
+				if esc {
+					if n := g.NodeOf(y); n != nil {
+						// a send that is a select arm is taken when control reaches the arm's body
+						handoffs = append(handoffs, n)
+					}
+				}
+				return true
+			})
 		}
 		return true
 	})
